@@ -434,6 +434,51 @@ func c15Work(c *engine.Ctx) {
 			}
 		}
 	}
+	// long lines: an error with many single- and multi-byte characters before and after it on the same line (the
+	// context is cut to a window counted in characters, the input is cut in bytes)
+	{
+		counts := []int{0, 1, 10, 20, 21, 22, 30, 59, 60, 61, 62, 63, 64, 65, 66, 100}
+		type tmpl struct {
+			space string
+			doc   func(pre, tail string) string
+		}
+		tmpls := []tmpl{
+			{"json-parse", func(pre, tail string) string { return "[\"" + pre + "\", 1 @ \"" + tail + "\"]" }},
+			{"json-parse", func(pre, tail string) string { return "{\"" + pre + "\": \x00\"" + tail + "\"}" }},
+			{"xml-lex", func(pre, tail string) string { return "<a b=\"" + pre + "\">\x00" + tail + "</a>" }},
+			{"xml-lex", func(pre, tail string) string { return "<a>" + pre + "<b \x00 c='" + tail + "'/>" }},
+			{"html-lex", func(pre, tail string) string { return "<p>" + pre + "<a \x00" + tail + ">" }},
+			{"js-lex", func(pre, tail string) string { return "'" + pre + "'; @ '" + tail + "'" }},
+			{"js-lex", func(pre, tail string) string { return "/*" + pre + "*/ \\ /*" + tail + "*/" }},
+			{"js-parse", func(pre, tail string) string { return "x = '" + pre + "' + ; '" + tail + "'" }},
+			{"css-parse", func(pre, tail string) string { return "a{b:'" + pre + "'}} c{d:'" + tail + "'}" }},
+		}
+		for _, tm := range tmpls {
+			sp := c.SpaceByName("err:" + tm.space)
+			if sp == nil {
+				continue
+			}
+			cfgs := cfgsFor([]string{tm.space})
+			for _, ch := range []string{"x", "\u00e9", "\u2318", "\U0001F600"} {
+				for _, np := range counts {
+					for _, nt := range counts {
+						k++
+						if !c.Mine(k) {
+							continue
+						}
+						for _, nl := range []string{"", "\nnext line"} {
+							doc := tm.doc(strings.Repeat(ch, np), strings.Repeat(ch, nt)) + nl
+							for _, cf := range cfgs {
+								c.Exec(sp, []byte(doc), cf.args)
+								c.Count("exec", 1)
+								c.Count("long-line-documents", 1)
+							}
+						}
+					}
+				}
+			}
+		}
+	}
 	// generic clause on the C01 spaces
 	plans := []enumPlan{
 		{alphaCSSCore, c.Pick(3, 4), []string{"css-parse"}},
